@@ -22,7 +22,7 @@
 
    ABSTRACTIONS.  A vote is (sender id, round, period, step, proposal-value, weight,
    credential rank); signatures/VRF proofs do not exist (the state machine only sees votes
-   that were verified, or unverified votes of which it reads only R.*).  A proposal-value is
+   that were verified, or unverified votes of which it reads only the R fields).  A proposal-value is
    (id, block round, OriginalPeriod, OriginalProposer): [v_id] stands for the pair
    (BlockDigest, EncodingDigest); [v_rnd] is the round of the block hashed by the digest
    (hash injectivity: a digest determines its block).  A payload is identified with its
@@ -45,7 +45,7 @@ Inductive res (A : Type) : Type :=
 | Panic (tag : string)
 | OutOfFuel.
 Arguments Ok {A} a.
-Arguments Panic {A} tag.
+Arguments Panic {A} tag%string.
 Arguments OutOfFuel {A}.
 
 Definition bind {A B} (x : res A) (f : A -> res B) : res B :=
